@@ -35,3 +35,11 @@ func (cl *Loader) VerifBuildRaw(raw map[string]interface{}, dir string) (*Config
 	}
 	return buildFromDefinition(def, &loaderContext{Dir: dir})
 }
+
+// VerifUnifyMapKinds exposes the normalisation applied to two raw documents before they are merged.
+func VerifUnifyMapKinds(a, b map[string]interface{}) { unifyMapKinds(a, b) }
+
+// VerifParse decodes one document of the given extension (".yaml", ".json", ".toml") without resolving imports.
+func (cl *Loader) VerifParse(data []byte, ext string) (map[string]interface{}, error) {
+	return cl.unmarshalData(data, ext)
+}
